@@ -69,6 +69,16 @@ CHECKS = {
             "cyclic or constant sequence, each selector is consulted once per item, FIRST_AVAILABLE commits to the lowest granted index "
             "and withdraws the rest, the recorded history equals the routing, out-of-range answers are rejected.",
             "Trusted: SimPy kernel; the outside ledger (instance-level wrappers around reserve_put/reserve_get/put/get/cancel of every store, can_put of every edge); harness-supplied delay/selection sources that log every consultation; public stats. Source keeps no history; multi-worker ties matched as multisets.", "DESIGN.md §4 C15"),
+    "C16": ("F", "property-based testing: generated pack/unpack lines, ledger-derived content oracle per pallet",
+            "Exploration: generated combiner/splitter lines (recipes 0-3 over 1-3 ingredient edges, blocking flags, policies, timing); every "
+            "pushed pallet is a pallet from in-edge 0 carrying exactly the objects pulled for it, recipe[i] from in-edge i; every pallet "
+            "entering a splitter is emitted as each contained item once (or one counted discard), then the empty pallet, nothing else.",
+            "Trusted: SimPy kernel; the outside ledger (instance-level wrappers on every store); harness-supplied delay sources that log every consultation; public stats. Buffer edges around combiner/splitter.", "DESIGN.md §4 C16"),
+    "C17": ("F", "property-based testing: generated factories and end times, partition sums plus independent activity integrals from the ledger",
+            "Exploration: generated factories with set-up times, end times incl. before set-up ends, non-dyadic delays; after finalisation "
+            "all totals >= 0, sums == T (machine: both groups and the occupancy histogram), set-up == min(setup,T), and IDLE / PROCESSING "
+            "/ BLOCKED totals equal integrals reconstructed from ledger pull/push instants and recorded delay draws.",
+            "Trusted: SimPy kernel; the outside ledger (instance-level wrappers on every store); harness-supplied delay sources that log every consultation; public stats. Tolerance 1e-9*max(1,T).", "DESIGN.md §4 C17"),
 }
 
 NOT_YET = "check not built yet in this session (work in progress; see DESIGN.md §4)"
